@@ -3,11 +3,16 @@ C05 driver.
   (c05 pushnot <pexpr>)                      → the Impl model `Gms.PushNot.push` of pushNotFiltersHelper
   (c05 tlp (db …) (qs Q T F N S) (sql …))    → the five results under the reference semantics,
                                                joined by " | " (all unordered)
+  (c05 tlp-region <region> (db …) (qs …) …)  → a case the harness puts into the region of a known
+                                               finding (the engine fails inside it): no prediction
+                                               ("region", spec "?") if one of the statements really is
+                                               in `Gms.FilterFold.Region_<region>`, "not-in-region" otherwise
   pexpr ::= (atom n 0|1) | (not e) | (and a b) | (or a b) | (cmp op a b) | (between v lo hi)
           | (other tag 0|1 (e*))
 -/
 import Gms.Driver.SqlProto
 import Gms.Model.PushNot
+import Gms.Model.FilterFold
 open Gms.Proto Gms.Sql Gms.Rel Gms.SqlProto Gms.PushNot
 
 partial def pexpr? : Sexp → Option PExpr
@@ -45,6 +50,14 @@ def handle (p : List Sexp) : String :=
       if qs.length == 5 && qs.all (check tys db) then
         answer (" | ".intercalate (qs.map (fun q => showRows false (eval db q))))
       else answer "ill-typed"
+    | _, _ => answer "bad-case"
+  | [.list (.atom "c05" :: .atom "tlp-region" :: .atom region :: items)] =>
+    match (field items "db").bind db?, (fieldArgs items "qs").mapM query? with
+    | some (tys, db), some qs =>
+      if !(qs.length == 5 && qs.all (check tys db)) then answer "ill-typed"
+      else if region == "join_on_folds_false_beside_subquery"
+          && qs.any Gms.FilterFold.Region_join_on_folds_false_beside_subquery then answer "region" "?"
+      else answer "not-in-region"
     | _, _ => answer "bad-case"
   | _ => answer "bad-case"
 
